@@ -739,13 +739,16 @@ class LayoutHandler(LayoutManager):
             shape[0], shape[axis[0]] = shape[axis[0]], shape[0]
             ranges[0], ranges[axis[0]] = ranges[axis[0]], ranges[0]
 
+        # Position of axis[1] in the block once axis[0] has been moved to the front
+        block_axis = order.index(axis[1])
+
         for (split_length, mpi_start) in zip(layout_dest.mpi_lengths(axis[0]), layout_dest.mpi_starts(axis[0])):
             # Get a view on the buffer which is the same size as the block
             arr = tobuffer[start:start+size].reshape(shape)
             assert arr.base is tobuffer
 
             # Use the list of slices to access the relevant elements on the block
-            ranges[axis[1]] = slice(split_length)
+            ranges[block_axis] = slice(split_length)
             arrView = arr[tuple(ranges)]
             assert arrView.base is tobuffer
 
@@ -798,6 +801,9 @@ class LayoutHandler(LayoutManager):
 
         transposition = [source_order.index(i) for i in layout_dest.dims_order]
 
+        # Position of axis[1] in the received blocks once axis[0] has been moved to the front
+        block_axis = axis[0] if (axis[0] != 0 and axis[1] == 0) else axis[1]
+
         # Get a view on the destination
         destView = np.split(data, [layout_dest.size])[
             0].reshape(layout_dest.shape)
@@ -818,7 +824,7 @@ class LayoutHandler(LayoutManager):
 
                 # Get a view on the block
                 bufRanges = [slice(x) for x in source_shape]
-                bufRanges[axis[1]] = slice(layout_dest.shape[axis[0]])
+                bufRanges[block_axis] = slice(layout_dest.shape[axis[0]])
                 bufRanges[0] = slice(
                     start, start+layout_source.mpi_lengths(axis[0])[r])
 
